@@ -141,6 +141,53 @@ theorem poll_validation_blocks_other_hashes (s : State) (h x : Nat) (voted : Lis
     ∀ c ∈ cands, c.1 ≠ x → ∀ p ∈ c.2, ∃ bs, Ev.blockPeers bs ∈ (poll s).1.pendingEvents ∧ p ∈ bs :=
   poll_validation_blocks s h x voted cands hq hres hg hpos
 
+/-! #### the blocking clauses read over whole histories
+
+  `State.blocked` logs every peer named in a `BlockPeers` the tracker ever queued (it is appended exactly
+  where the model pushes a `BlockPeers`), `State.removed` every peer `remove_peer` was called for from
+  outside (the shrex client blocked it). -/
+
+/-- FULL STATEMENT (history reading of "peers that announced another hash for a validated height are
+    blocked"): after ANY history, a peer that announced `(x, h)` while `h` is now validated with another
+    hash was named in a `BlockPeers` or removed.  It is FALSE of lumina (see the counterexample below). -/
+def WrongHashBlockedAlways : Prop :=
+  ∀ (evs : List Event) (p x h y : Nat), (p, x, h) ∈ (run init evs).announced →
+    alGet (run init evs).hashPools h = some (.validated y) → y ≠ x →
+    p ∈ (run init evs).blocked ∨ p ∈ (run init evs).removed
+
+/-- the history reading holds for every history in which no header task fails (`NoFail`: no injected
+    `Timeout` / `StoreError`; every other interleaving of notifications, header arrivals, removals and
+    polls is allowed) -/
+theorem wrong_hash_blocked_history_partial (evs : List Event) (hn : ∀ e ∈ evs, NoFail e)
+    (p x h y : Nat) (ha : (p, x, h) ∈ (run init evs).announced)
+    (hv : alGet (run init evs).hashPools h = some (.validated y)) (hne : y ≠ x) :
+    p ∈ (run init evs).blocked ∨ p ∈ (run init evs).removed := by
+  have hi := hinv_run evs init hinv_init hn
+  rcases hi.h _ ha with he | hs
+  · exact he
+  · unfold Stand at hs
+    simp only [hv] at hs
+    exact absurd hs hne
+
+/-- … and it is false in general (known finding `C40/wrong-hash-vote-forgotten-by-store-error`): peer 2
+    announces hash 9 for height 11; the header task of 11 ends in a store error and `poll` drops the pool
+    without blocking anybody; peer 0 announces the right hash, the header arrives, 11 is validated with
+    1011 and offers peer 0 — peer 2 was never blocked nor removed -/
+theorem wrong_hash_history_counterexample : ¬ WrongHashBlockedAlways := by
+  intro h
+  have := h [.store 10 1010, .poll, .notify 2 9 11, .taskStoreErr 11, .poll, .notify 0 1011 11,
+    .store 11 1011, .poll, .poll, .poll] 2 9 11 1011 (by decide) (by decide) (by decide)
+  revert this
+  decide
+
+/-- the same store-error path forgets that a peer already announced (known finding
+    `C40/repeat-after-store-error-not-blocked`): peer 0 announces for 11, the pool is dropped after a store
+    error, peer 0 announces for 11 again and simply votes again -/
+theorem announced_twice_history_counterexample :
+    let s := run init [.store 10 1010, .poll, .notify 0 1011 11, .taskStoreErr 11, .poll, .notify 0 1011 11]
+    s.announced = [(0, 1011, 11), (0, 1011, 11)] ∧ s.blocked = [] ∧ s.removed = [] ∧ s.pendingEvents = [] ∧
+    alGet s.hashPools 11 = some (.candidates [0] [(1011, [0])]) := by decide
+
 /-- a queued `BlockPeers` is delivered by `poll` before anything else, and the blocked peers are then
     gone from every pool the tracker offers -/
 theorem blocked_peers_leave_all_pools (s : State) (ps : List Nat) (rest : List Ev)
@@ -285,5 +332,16 @@ example :
     s.pendingEvents = [] ∧ (pollNext s.stored s.queue s.waiters).2.2 = some (.ok 11 7) ∧
     alGet s.hashPools 11 = some (.candidates [0, 2] [(7, [0]), (9, [2])]) ∧
     (poll s).1.pendingEvents = [.addPeers [0], .blockPeers [2]] := by decide
+
+/-- `wrong_hash_blocked_history_partial` is not vacuous: a failure-free history in which peer 2's wrong
+    vote is blocked at validation -/
+example :
+    let evs : List Event := [.store 10 1010, .poll, .notify 2 9 11, .notify 0 1011 11, .store 11 1011, .poll]
+    (∀ e ∈ evs, NoFail e) ∧ (2, 9, 11) ∈ (run init evs).announced ∧
+    alGet (run init evs).hashPools 11 = some (.validated 1011) ∧ (run init evs).blocked = [2] := by
+  refine ⟨?_, by decide, by decide, by decide⟩
+  intro e he
+  simp only [List.mem_cons, List.not_mem_nil, or_false] at he
+  rcases he with rfl | rfl | rfl | rfl | rfl | rfl <;> trivial
 
 end Lumina.Props.C40
